@@ -173,26 +173,31 @@ def swapAt {α : Type} (l : List α) (p : Nat) : List α :=
   | some a, some b => (l.set (p - 1) b).set p a
   | _, _ => l
 
-/-- the `while` loop of `calc_permutation_matrix` (fuel = a bound on the number of adjacent swaps) -/
+/-- the `while` loop of `calc_permutation_matrix` (fuel = a bound on the number of adjacent swaps).
+Returns the accumulated matrix together with the final `tmp_system_order` / `tmp_size_list` (local variables
+of the Python function, exposed so that theorems can speak about them). -/
 def calcPermLoop {K : Type} [Add K] [Mul K] [Zero K] [One K]
     (lp : Nat → List Nat → Except Err (DMat K)) :
-    Nat → List Nat → List Nat → DMat K → Except Err (DMat K)
+    Nat → List Nat → List Nat → DMat K → Except Err (DMat K × List Nat × List Nat)
   | 0, _, _, _ => .error .fuel
   | fuel + 1, order, sizes, perm =>
     match checkCross order with
-    | none => .ok perm
-    | some pos => do
-        let left ← lp pos sizes
-        let perm' ← left.mul perm
-        calcPermLoop lp fuel (swapAt order pos) (swapAt sizes pos) perm'
+    | none => .ok (perm, order, sizes)
+    | some pos =>
+      match lp pos sizes with
+      | .error e => .error e
+      | .ok left =>
+        match left.mul perm with
+        | .error e => .error e
+        | .ok perm' => calcPermLoop lp fuel (swapAt order pos) (swapAt sizes pos) perm'
 
 /-- `calc_permutation_matrix(system_order, size_list)` -/
 def calcPerm {K : Type} [Add K] [Mul K] [Zero K] [One K] (order sizes : List Nat) : Except Err (DMat K) :=
-  calcPermLoop leftPerm (order.length * order.length + 1) order sizes (DMat.eye (prodL sizes))
+  (calcPermLoop leftPerm (order.length * order.length + 1) order sizes (DMat.eye (prodL sizes))).map (·.1)
 
 def calcPermFixed {K : Type} [Add K] [Mul K] [Zero K] [One K] (order sizes : List Nat) :
     Except Err (DMat K) :=
-  calcPermLoop leftPermFixed (order.length * order.length + 1) order sizes (DMat.eye (prodL sizes))
+  (calcPermLoop leftPermFixed (order.length * order.length + 1) order sizes (DMat.eye (prodL sizes))).map (·.1)
 
 /-- `convert_list_by_permutation_matrix`: `new[row] = old[col]` for the first `col` with a 1 in that row;
 `none` = the placeholder `True` the code leaves when a row has no 1. -/
@@ -244,17 +249,25 @@ def tensorStateState (s1 : List ESys) (v1 : List Rat) (s2 : List ESys) (v2 : Lis
   let v ← perm.mulVecL (kronL v1 v2)
   return (c, v)
 
-/-- `_tensor_product_hs_hs(hs1, hs2, e_sys_list)` -/
-def tensorHs (hs1 hs2 : DMat Rat) (e : List ESys) : Except Err (DMat Rat) := do
+/-- `_tensor_product_hs_hs(hs1, hs2, e_sys_list)`, with the first half (`kron` of the flattened matrices, the
+`(d1·d2)² × (d1·d2)²` vec-permutation, `reshape`) passed in as `core`: `tensorHsHs` is the code as written,
+`kron` is what it equals for all sizes (theorem `hs_tensor` in QProps/C07.lean) and what the driver executes on
+large inputs, where materialising the vec-permutation entry by entry is too slow. -/
+def tensorHsWith (core : {n1 n2 : Nat} → Mat Rat n1 n1 → Mat Rat n2 n2 → Mat Rat (n1 * n2) (n1 * n2))
+    (hs1 hs2 : DMat Rat) (e : List ESys) : Except Err (DMat Rat) := do
   -- hs.shape[0] is used for both dimensions: a non-square input fails in the matmul / reshape
   if h : hs1.r = hs1.c ∧ hs2.r = hs2.c then
     let A : Mat Rat hs1.r hs1.r := h.1 ▸ hs1.m
     let B : Mat Rat hs2.r hs2.r := h.2 ▸ hs2.m
-    let t : DMat Rat := ⟨hs1.r * hs2.r, hs1.r * hs2.r, tensorHsHs A B⟩
+    let t : DMat Rat := ⟨hs1.r * hs2.r, hs1.r * hs2.r, core A B⟩
     let perm ← ratPerm (e.map (·.1)) (e.map fun x => sq x.2)
     let pt ← perm.mul t
     pt.mul perm.transpose
   else .error .shape
+
+/-- the code as written -/
+def tensorHs (hs1 hs2 : DMat Rat) (e : List ESys) : Except Err (DMat Rat) :=
+  tensorHsWith (fun A B => tensorHsHs A B) hs1 hs2 e
 
 /-- `_tensor_product_Povm_Povm` -/
 def tensorPovmPovm (s1 : List ESys) (n1 : List Nat) (vs1 : List (List Rat))
@@ -274,24 +287,25 @@ def tensorPovmPovm (s1 : List ESys) (n1 : List Nat) (vs1 : List (List Rat))
   let newNums := ((order.zip nums).foldr insertSorted []).map (·.2)
   return (c, newNums, vecs'')
 
-def tensorObj : TObj → TObj → Except Err TObj
+def tensorObjWith (core : {n1 n2 : Nat} → Mat Rat n1 n1 → Mat Rat n2 n2 → Mat Rat (n1 * n2) (n1 * n2)) :
+    TObj → TObj → Except Err TObj
   | .gate s1 h1, .gate s2 h2 => do
       let c ← mkCSys (s1 ++ s2)
-      let hs ← tensorHs h1 h2 (s1 ++ s2)
+      let hs ← tensorHsWith core h1 h2 (s1 ++ s2)
       return .gate c hs
   | .gate s1 h1, .mprocess s2 shape hss => do
       let c ← mkCSys (s1 ++ s2)
-      let hss' ← hss.mapM fun h2 => tensorHs h1 h2 (s1 ++ s2)
+      let hss' ← hss.mapM fun h2 => tensorHsWith core h1 h2 (s1 ++ s2)
       return .mprocess c shape hss'
   | .mprocess s1 shape hss, .gate s2 h2 => do
       let c ← mkCSys (s1 ++ s2)
-      let hss' ← hss.mapM fun h1 => tensorHs h1 h2 (s1 ++ s2)
+      let hss' ← hss.mapM fun h1 => tensorHsWith core h1 h2 (s1 ++ s2)
       return .mprocess c shape hss'
   | .mprocess s1 sh1 hss1, .mprocess s2 sh2 hss2 => do
       let c ← mkCSys (s1 ++ s2)
       -- as coded: `for hs2 in elem2.hss: for hs1 in elem1.hss`, shape = shape1 + shape2
       let hss' ← (hss2.flatMap fun h2 => hss1.map fun h1 => (h1, h2)).mapM fun (h1, h2) =>
-        tensorHs h1 h2 (s1 ++ s2)
+        tensorHsWith core h1 h2 (s1 ++ s2)
       return .mprocess c (sh1 ++ sh2) hss'
   | .state s1 v1, .state s2 v2 => do
       let (c, v) ← tensorStateState s1 v1 s2 v2
@@ -314,11 +328,19 @@ def tensorObj : TObj → TObj → Except Err TObj
       return .povm c nums vecs
   | _, _ => .error .typeErr
 
+/-- `_tensor_product(elem1, elem2)` as written -/
+def tensorObj : TObj → TObj → Except Err TObj := tensorObjWith (fun A B => tensorHsHs A B)
+
+/-- the same with `kron` substituted for the vec-permutation pipeline (equal by `hs_tensor`) -/
+def tensorObjExec : TObj → TObj → Except Err TObj := tensorObjWith (fun A B => kron A B)
+
 /-- `tensor_product(*elements)`: left fold (`none` = fewer than two elements) -/
-def tensorFold : List TObj → Option (Except Err TObj)
+def tensorFoldWith (op : TObj → TObj → Except Err TObj) : List TObj → Option (Except Err TObj)
   | [] => none
   | [_] => none
-  | x :: xs => some (xs.foldl (fun acc e => acc.bind fun t => tensorObj t e) (.ok x))
+  | x :: xs => some (xs.foldl (fun acc e => acc.bind fun t => op t e) (.ok x))
+
+def tensorFold : List TObj → Option (Except Err TObj) := tensorFoldWith tensorObj
 
 /-! ## qutrit → qubit embedding -/
 
@@ -409,15 +431,16 @@ def showRes (r : Except Err TObj) : String :=
   | .error e => "err " ++ e.toString
 
 /-- reverse-polish grouping: a number pushes that object, `x` pops `b` then `a` and pushes `a ⊗ b` -/
-def rpn (objs : Array TObj) : List String → List (Except Err TObj) → Option (Except Err TObj)
+def rpn (op : TObj → TObj → Except Err TObj) (objs : Array TObj) :
+    List String → List (Except Err TObj) → Option (Except Err TObj)
   | [], [r] => some r
   | [], _ => none
-  | "x" :: ts, b :: a :: st => rpn objs ts ((do let p ← a; let q ← b; tensorObj p q) :: st)
+  | "x" :: ts, b :: a :: st => rpn op objs ts ((do let p ← a; let q ← b; op p q) :: st)
   | "x" :: _, _ => none
   | t :: ts, st => do
       let i ← parseNat? t
       let o ← objs[i]?
-      rpn objs ts (.ok o :: st)
+      rpn op objs ts (.ok o :: st)
 
 def showDMatInt (r : Except Err (DMat Int)) : String :=
   match r with
@@ -458,15 +481,18 @@ def handle (args : List String) : Option String :=
         let t : DMat Rat := ⟨A.r * B.r, A.r * B.r, tensorHsHs (h.1 ▸ A.m : Mat Rat A.r A.r) (h.2 ▸ B.m : Mat Rat B.r B.r)⟩
         some s!"ok {t.r} {showList showRat t.entries}"
       else none
-  | "tensor" :: k :: rest => do
+  | "tensor" :: mode :: k :: rest => do
+      -- mode `coded`: the vec-permutation pipeline as written; `exec`: `kron` substituted (theorem `hs_tensor`)
       let k ← parseNat? k
       if rest.length < k then none
       let objs ← (rest.take k).mapM parseObj?
-      let r ← rpn objs.toArray (rest.drop k) []
+      let op ← if mode = "coded" then some tensorObj else if mode = "exec" then some tensorObjExec else none
+      let r ← rpn op objs.toArray (rest.drop k) []
       some (showRes r)
-  | "fold" :: objs => do
+  | "fold" :: mode :: objs => do
       let objs ← objs.mapM parseObj?
-      match tensorFold objs with
+      let op ← if mode = "coded" then some tensorObj else if mode = "exec" then some tensorObjExec else none
+      match tensorFoldWith op objs with
       | none => some "err tooFew"
       | some r => some (showRes r)
   | ["embedindex", num] => do
